@@ -40,7 +40,7 @@ func (l *List) MultiUse(st funcGen.Stack[Value]) (Map, error) {
 		prList, run, done := iterator.CopyProducer[Value](len(muList))
 		for i, mu := range muList {
 			pr := prList[i]
-			go mu.runConsumer(pr, done)
+			go mu.runConsumer(st.Derive(), pr, done)
 		}
 		err := run(l.iterable(st))
 
@@ -66,14 +66,14 @@ type multiUseList []*multiUseEntry
 // the closure panics, the panic is recovered and also sent to the result
 // channel. if the closure returns a list, the list is evaluated before it is
 // sent to the result channel.
-func (mu *multiUseEntry) runConsumer(itera iterator.Producer[Value], done func(error)) {
+func (mu *multiUseEntry) runConsumer(st funcGen.Stack[Value], itera iterator.Producer[Value], done func(error)) {
 	defer func() {
 		if rec := recover(); rec != nil {
 			done(parser2.AnyToError(rec))
 		}
 	}()
 	verifPoint("multiUse.runConsumer", 0, 0)
-	st := funcGen.NewEmptyStack[Value]()
+	// st is a stack derived from the stack of the caller, see Stack.Derive
 	used := false
 	var innerErr error
 	st.Push(NewListFromIterable(func(st funcGen.Stack[Value]) iterator.Producer[Value] {
